@@ -89,7 +89,9 @@ PROPS = {
     "C11": dict(
         runs=[dict(harness="bp", name="batch",
                  args=lambda tier, seed, casedir, coq: ["batch", "--n", str(q(tier, 300, 6000)), "--seed", str(seed)], coq_timeout=3000),
-            bp_sys("C11", 60, 2000)],
+            bp_sys("C11", 60, 2000),
+            dict(harness="bp", name="sysrace", race=True, tiers=("thorough",),
+                 args=lambda tier, seed, casedir, coq: ["sys", "--focus", "C11", "--n", "300", "--seed", str(seed)], timeout=3000)],
         rule="whole-processor runs with max_concurrency in {0,1,2,3}, 2-7 callers, random export latencies/failures/cancellations, Shutdown while items are "
              "buffered or callers wait; the recorded event log must be a trace of the protocol LTS (every step enabled) and its response events (recv / send tuples / respond delivered or skipped) a trace of Batch/Resp.v, max in-flight measured at the "
              "downstream consumer, every export returned before Shutdown returned, 20 s watchdog for deadlocks",
@@ -237,6 +239,8 @@ PROPS = {
             dict(harness="codec", name="genssa", phase="gen", args=lambda tier, seed, casedir, coq: ["genssa", "--out", casedir], timeout=1200),
             dict(harness="codec", name="indep",
                  args=lambda tier, seed, casedir, coq: ["indep", "--n", str(q(tier, 25, 600)), "--seed", str(seed)], timeout=3000),
+            dict(harness="codec", name="indeprace", race=True, tiers=("thorough",),
+                 args=lambda tier, seed, casedir, coq: ["indep", "--n", "60", "--seed", str(seed)], timeout=3000),
         ],
         rule="genssa: every Store / MapUpdate whose address derives from a package-level variable, outside package initialisation, in the SSA form of everything reachable from pkg/otel/arrow_record "
              "(must be within the protobuf-registration whitelist), and every package-level variable whose type can reach memory (must be an error value, an immutable library prototype or a read-only lookup table); "
@@ -245,6 +249,6 @@ PROPS = {
              "i.e. inside the encoders' loops — each stream's decoded output and the memory its consumer reports after every batch compared with the same stream run alone; all consumers of a case are built from one set of option values; "
              "genssa also lists option constructors that capture (or pass to another option constructor) reference-like state they created themselves (must be none)",
         trusted_base=["data-race freedom is outside the model (Go memory model); the go/ssa extractor", "instances share no state by construction (each NewProducer/NewConsumer builds its own builders, allocators, maps)"],
-        assumptions=["-race runs are supporting evidence in the thorough tier only"],
+        assumptions=["race-detector runs are supporting evidence in the thorough tier only"],
     ),
 }
